@@ -10,7 +10,7 @@ REPO=${1:-/repo}
 OUT=$(mktemp /tmp/baseline.XXXXXX.json)
 unset GOFLAGS GOTOOLCHAIN GOSUMDB
 export GOPROXY=off
-(cd "$REPO" && go test -mod=mod -json -vet=off -count=1 -timeout 25m ./... > "$OUT" 2>/dev/null)
+(cd "$REPO" && go test -mod=mod -json -vet=off -count=1 -timeout 6m ./... > "$OUT" 2>/dev/null)
 python3 - "$OUT" "$REPO" <<'PY'
 import json,sys,subprocess
 base=json.load(open('/root/.vp/BASELINE.json'))
